@@ -325,7 +325,7 @@ class Ctx:
             failed = re.findall(r"✖ \[\d+/\d+\] Building (\S+)", out) or re.findall(r"error: (\S+\.lean)", out)
             self.violation("prove:lake-build", "proof", None, {"failed": failed[:10], "log_tail": out[-1500:]},
                            "lake build of the Lean development (models, generated definitions, theorems)", False)
-            self.model_available = DRIVER.exists() and not any("Driver" in f or "Model" in f or "Main" in f for f in failed)
+            self.model_available = DRIVER.exists() and not any(re.search(r"(^|[./])(Driver|Model|Generated)[./]|(^|[./])Main(\.lean)?$", f) for f in failed)
             return
         self.model_available = True
         if not mods:
